@@ -82,6 +82,8 @@ def shapes(tier):
         variants = el.variants
         for vi, variant in enumerate(variants):
             for pi, kinds in enumerate(pats):
+                if el.lenpos and "zero" in kinds:
+                    continue  # order-based rules are stated for positive-length tasks only
                 if el.ntasks == 1:
                     masks = [(False,), (True,)]
                 elif el.ntasks == 2:
